@@ -11,7 +11,6 @@ import (
 
 func init() { corr.RegisterArea("keys", Run) }
 
-var useModel = false
 
 func oneHistory(r *corr.Run, id, nAcc, steps int) {
 	h := newHist(r, id, nAcc)
@@ -108,13 +107,15 @@ func (h *hist) tamperRound(op *pendingOp) {
 }
 
 func (h *hist) modelStep() {
-	impl := h.table()
-	if !useModel {
+	impl := "wf=1 " + h.table()
+	if len(h.r.ModelCmd) == 0 {
 		return
 	}
 	line := h.ops[len(h.ops)-1]
 	if len(h.ops) == 1 {
-		h.r.Ask(fmt.Sprintf("reset %d", h.n()))
+		if a := h.r.Ask(fmt.Sprintf("reset %d", h.n())); a != "ok" {
+			h.r.Fatal("model refused reset: " + a)
+		}
 	}
 	model := h.r.Ask(line)
 	h.r.Check("C05", "keys.table", append([]string{fmt.Sprintf("reset %d", h.n())}, h.ops...), model, impl)
